@@ -9,11 +9,14 @@ C03  Any erasure pattern within the parity count is exactly recoverable.
 * `min_distance`       – stripes of two different data vectors differ in ≥ np+1 blocks, i.e. the
   consistency test cannot accept a candidate set that leaves a corrupted block unlisted as
   long as listed + unlisted ≤ np.
+* `power_all_minors`, `rec_unique_z`, `min_distance_z` – the same for the alternate (z) generator
+  `1, 2^i, 2^{-i}` (3 parities, up to 255 disks).
 The matrix these theorems talk about is tied to today's `raid/tables.c` by the per-run
 obligations `gfcauchy_row0..5` (gen/GenTablesOkC*.lean).
 -/
 import SnapraidVerif.Raid.Cauchy
 import SnapraidVerif.Raid.MdsCode
+import SnapraidVerif.Raid.PowerMds
 
 namespace SnapraidVerif.Props.C03
 open Raid MdsCode
@@ -50,5 +53,30 @@ example : (Matrix.of fun (a b : Fin 2) => Acauchy (if a = 0 then 2 else 5) (if b
   apply cauchy_mds (fun a : Fin 2 => if a = 0 then (2 : Fin 6) else 5) (fun b : Fin 2 => if b = 0 then (7 : Fin 251) else 250)
   · intro a b; fin_cases a <;> fin_cases b <;> simp
   · intro a b; fin_cases a <;> fin_cases b <;> simp
+
+/-! ### the alternate (z) mode: rows 1, 2^i, 2^{-i}, up to 3 parities -/
+
+def genz (np nd : ℕ) (hnp : np ≤ 3) (hnd : nd ≤ 255) : Fin np → Fin nd → GF256 :=
+  fun j i => Apower (Fin.castLE hnp j) (Fin.castLE hnd i)
+
+theorem power_all_minors (np nd : ℕ) (hnp : np ≤ 3) (hnd : nd ≤ 255) :
+    AllMinorsNonsingular (genz np nd hnp hnd) := by
+  intro k r c hr hc
+  exact power_mds (fun a => Fin.castLE hnp (r a)) (fun b => Fin.castLE hnd (c b))
+    ((Fin.castLE_injective hnp).comp hr) ((Fin.castLE_injective hnd).comp hc)
+
+theorem rec_unique_z (np nd : ℕ) (hnp : np ≤ 3) (hnd : nd ≤ 255)
+    (D D' : Fin nd → GF256) (F : Finset (Fin nd)) (R : Finset (Fin np)) (hcard : F.card ≤ R.card)
+    (hout : ∀ i, i ∉ F → D i = D' i)
+    (hpar : ∀ j ∈ R, parity (genz np nd hnp hnd) D j = parity (genz np nd hnp hnd) D' j) : D = D' :=
+  MdsCode.rec_unique _ (power_all_minors np nd hnp hnd) D D' F R hcard hout hpar
+
+theorem min_distance_z (np nd : ℕ) (hnp : np ≤ 3) (hnd : nd ≤ 255) (D D' : Fin nd → GF256) (hne : D ≠ D') :
+    np + 1 ≤ (Finset.univ.filter fun i => D i ≠ D' i).card +
+      (Finset.univ.filter fun j => parity (genz np nd hnp hnd) D j ≠ parity (genz np nd hnp hnd) D' j).card :=
+  MdsCode.min_distance _ (power_all_minors np nd hnp hnd) D D' hne
+
+theorem genz_val (np nd : ℕ) (hnp : np ≤ 3) (hnd : nd ≤ 255) (j : Fin np) (i : Fin nd) :
+    (genz np nd hnp hnd j i).val = power j i := rfl
 
 end SnapraidVerif.Props.C03
